@@ -295,6 +295,55 @@ def run(ctx):
                 ctx.bad(R_pos, key, where, "adjusted key adds `%s`; data is read at SeekFrom::Start(%s)" % (hirq.render(pos), ", ".join(sorted(seeks))[:80]),
                         "the format adds the block's offset from the start of the archive; with the absolute file offset every FIX_KEY file in an archive that does not start at offset 0 (embedded / user-data-prefixed) decrypts to garbage")
 
+    # lookups: a deleted entry is skipped, only a never-used entry ends the search (decided over the three kinds of entry)
+    R_del = ctx.rule("C02.lookup-stops-only-at-never-used", "in the lookup probe loops the not-found exit taken on an entry's state is true for a never-used entry and false for a deleted or occupied one", floor=2)
+    from .c10 import _bval, _NoEval
+    he_methods = {norm(f.path).split("::")[-1]: f for f in mpq.fn_list if f.hir and f.kind != "Closure" and norm(f.path).startswith(M + "tables::hash::HashEntry::")}
+    KINDS = {"occupied": 5, "deleted": ref.CONSTANTS["HashEntry::EMPTY_DELETED"], "never-used": ref.CONSTANTS["HashEntry::EMPTY_NEVER_USED"]}
+
+    def expand_entry_preds(n, depth=0):
+        """replace `e.is_xxx()` on a hash entry by the body of HashEntry::is_xxx with `self` := e"""
+        if isinstance(n, list):
+            return [expand_entry_preds(x, depth) for x in n]
+        if not isinstance(n, dict):
+            return n
+        if n.get("k") == "mcall" and n["m"] in he_methods and not n.get("args") and depth < 3 and (n.get("fn") or "").endswith("HashEntry::" + n["m"]):
+            body = he_methods[n["m"]].hir["body"]
+            return expand_entry_preds(hirq.subst(hirq.strip(body), {"self": n["recv"]}), depth + 1)
+        return {k_: expand_entry_preds(v_, depth) for k_, v_ in n.items()}
+    for path in ("tables::hash::HashTable::find_file", "modification::MutableArchive::find_file_entry"):
+        f = fns.get(M + path)
+        if f is None:
+            ctx.bad(R_del, "%s|missing" % path, "-", "function not found", "anchor gone")
+            continue
+        ctx.saw_fn(f)
+        n_dec = 0
+        for lp in hirq.find(f.hir["body"], "loop"):
+            for n in hirq.find(lp["body"], "if"):
+                then_ret_none = any(x.get("k") == "ret" and re.search(r"None", hirq.render(x.get("e"))) for x in hirq.walk(n["then"]))
+                if not then_ret_none or "block_index" not in hirq.render(expand_entry_preds(n["c"])):
+                    continue
+                tab = {}
+                try:
+                    for kind, v in KINDS.items():
+                        env = {"__leaf__": (lambda r_, v=v: v if r_.endswith("block_index") else {"EMPTY_DELETED": KINDS["deleted"], "EMPTY_NEVER_USED": KINDS["never-used"]}.get(r_))}
+                        tab[kind] = _bval(expand_entry_preds(n["c"]), env, {})
+                except _NoEval:
+                    continue
+                n_dec += 1
+                key = "%s|not-found-exit" % path.split("::")[-1]
+                if tab == {"occupied": False, "deleted": False, "never-used": True}:
+                    ctx.ok(R_del, {"fn": path, "cond": hirq.render(n["c"])[:60], "table": tab})
+                else:
+                    ctx.bad(R_del, key, "%s:%d" % (f.file, n["ln"]), "`%s` ends the search for %s" % (hirq.render(n["c"])[:60], [k_ for k_, b_ in tab.items() if b_]),
+                            "the format skips deleted entries (0xFFFFFFFE) and stops only at never-used ones (0xFFFFFFFF): a file that sits behind a deleted slot in an archive maintained by another implementation is reported missing")
+        if n_dec == 0:
+            ctx.bad(R_del, "%s|no-state-exit" % path.split("::")[-1], f.where, "no not-found exit on the entry's state recognised", "anchor shape changed")
+
+    # names are hashed byte-wise (interoperability of non-ASCII names); the kernels themselves are decided under C04
+    from .c04 import name_hash_iterates_bytes
+    name_hash_iterates_bytes(ctx, mpq, "C02")
+
     # tail rule
     for path in ("builder::ArchiveBuilder::encrypt_data", "archive::decrypt_file_data", "tables::common::decrypt_table_data"):
         f = fns.get(M + path)
